@@ -50,8 +50,8 @@ theorem init_tables (seed : List U8) :
     (∀ j, j < 512 →
       rd (Hc128.fromSeedCore seed).t (512 + j) = (Wu.initState (key seed) (iv seed)).Q j) ∧
     (Hc128.fromSeedCore seed).counter = 0 := by
-  have h := Hc128R.init_refine (le32At seed 0) (le32At seed 1) (le32At seed 2) (le32At seed 3)
-    (le32At seed 4) (le32At seed 5) (le32At seed 6) (le32At seed 7)
+  have h : Hc128R.Abs (Hc128.fromSeedCore seed).t (Wu.initState (key seed) (iv seed)) ∧
+      (Hc128.fromSeedCore seed).counter = 0 := Hc128R.fromSeedCore_refine seed
   exact ⟨h.1.size, h.1.p, h.1.q, h.2⟩
 
 /-- State correspondence at every block boundary: after `b` calls of `generate` the model
@@ -63,8 +63,8 @@ theorem core_tables (seed : List U8) (b : Nat) :
     (∀ j, j < 512 →
       rd (coreAfter seed b).t (512 + j) = (Wu.stateAt (key seed) (iv seed) (16 * b)).Q j) ∧
     (coreAfter seed b).counter = (16 * b) % 2 ^ 64 := by
-  have h := Hc128R.init_refine (le32At seed 0) (le32At seed 1) (le32At seed 2) (le32At seed 3)
-    (le32At seed 4) (le32At seed 5) (le32At seed 6) (le32At seed 7)
+  have h : Hc128R.Abs (Hc128.fromSeedCore seed).t (Wu.initState (key seed) (iv seed)) ∧
+      (Hc128.fromSeedCore seed).counter = 0 := Hc128R.fromSeedCore_refine seed
   have g := Hc128R.core_inv (key seed) (iv seed) (Hc128.fromSeedCore seed) h.1 h.2 b
   exact ⟨g.1.size, g.1.p, g.1.q, g.2⟩
 
@@ -74,16 +74,16 @@ theorem core_tables (seed : List U8) (b : Nat) :
 theorem generate_block (seed : List U8) (b : Nat) (res : Array U32) (hres : res.size = 16) :
     (Hc128.generate (coreAfter seed b) res).1 =
       Array.ofFn (n := 16) (fun k => Wu.keystream (key seed) (iv seed) (16 * b + k.val)) := by
-  have h := Hc128R.init_refine (le32At seed 0) (le32At seed 1) (le32At seed 2) (le32At seed 3)
-    (le32At seed 4) (le32At seed 5) (le32At seed 6) (le32At seed 7)
+  have h : Hc128R.Abs (Hc128.fromSeedCore seed).t (Wu.initState (key seed) (iv seed)) ∧
+      (Hc128.fromSeedCore seed).counter = 0 := Hc128R.fromSeedCore_refine seed
   exact Hc128R.generate_block (key seed) (iv seed) (Hc128.fromSeedCore seed) h.1 h.2 b res hres
 
 /-- Stream form of C02: for every seed and every `k`, the `k`-th `next_u32` (counting from 0)
     of `Hc128Rng::from_seed(seed)` is the keystream word s_k of the specification. -/
 theorem nextU32_stream (seed : List U8) (k : Nat) :
     (Hc128.nextU32 (rngAfter seed k)).1 = Wu.keystream (key seed) (iv seed) k := by
-  have h := Hc128R.init_refine (le32At seed 0) (le32At seed 1) (le32At seed 2) (le32At seed 3)
-    (le32At seed 4) (le32At seed 5) (le32At seed 6) (le32At seed 7)
+  have h : Hc128R.Abs (Hc128.fromSeedCore seed).t (Wu.initState (key seed) (iv seed)) ∧
+      (Hc128.fromSeedCore seed).counter = 0 := Hc128R.fromSeedCore_refine seed
   exact Hc128R.nextU32_stream (key seed) (iv seed) (Hc128.fromSeedCore seed) h.1 h.2 k
 
 /-- the hypothesis of `generate_block` is satisfiable (the buffer of a fresh `BlockRng`) -/
